@@ -1,1 +1,580 @@
-// kani harnesses (included from /repo under cfg(kani))
+// C20-O1, C23-O1..O3, C15-O1: numeric / ordering / equality kernels of the evaluator.
+// Included from /repo/nervusdb-query/src/evaluator.rs under cfg(kani) (child module: sees the evaluator's private items).
+// Naming: c<prop>_o<obligation>_<tier q|t|a>_<shape>.
+use super::evaluator_numeric::{numeric_div, numeric_mod};
+use super::*;
+use nervusdb_storage::index::ordered_key::encode_ordered_value;
+use nervusdb_storage::property::PropertyValue;
+use std::cmp::Ordering;
+
+const TWO53: u64 = 1u64 << 53;
+
+// ---- shapes: one concrete variant per code, symbolic payload --------------------------------
+// I = Int (any), S = Int with |x| <= 2^53 ("small": exactly representable as f64),
+// L = Int with |x| > 2^53 ("large"), F = Float non-NaN, N = Float NaN, A = any Float,
+// B = Bool, D = DateTime, U = Null
+fn shaped(code: char) -> Value {
+    match code {
+        'I' => Value::Int(kani::any()),
+        'S' => {
+            let x: i64 = kani::any();
+            kani::assume(x.unsigned_abs() <= TWO53);
+            Value::Int(x)
+        }
+        'L' => {
+            let x: i64 = kani::any();
+            kani::assume(x.unsigned_abs() > TWO53);
+            Value::Int(x)
+        }
+        'F' => {
+            let f: f64 = kani::any();
+            kani::assume(!f.is_nan());
+            Value::Float(f)
+        }
+        'N' => {
+            let f: f64 = kani::any();
+            kani::assume(f.is_nan());
+            Value::Float(f)
+        }
+        'A' => Value::Float(kani::any()),
+        'B' => Value::Bool(kani::any()),
+        'D' => Value::DateTime(kani::any()),
+        _ => Value::Null,
+    }
+}
+
+// =============================================================================================
+// C20-O1: order_compare is a total preorder on scalar kinds (what slice::sort_by needs to sort)
+// =============================================================================================
+fn order_laws(a: Value, b: Value, c: Value) {
+    let ab = order_compare(&a, &b);
+    let ba = order_compare(&b, &a);
+    let bc = order_compare(&b, &c);
+    let ac = order_compare(&a, &c);
+    let aa = order_compare(&a, &a);
+    std::mem::forget((a, b, c));
+    kani::cover!(true, "witness: laws reached");
+    assert!(aa == Ordering::Equal, "order: reflexive");
+    assert!(ab == ba.reverse(), "order: antisymmetric (cmp(a,b) = reverse cmp(b,a))");
+    if ab != Ordering::Greater && bc != Ordering::Greater {
+        assert!(ac != Ordering::Greater, "order: transitive (a<=b, b<=c => a<=c)");
+    }
+    if ab == Ordering::Equal && bc == Ordering::Equal {
+        assert!(ac == Ordering::Equal, "order: Equal is transitive");
+    }
+    if ab == Ordering::Less && bc != Ordering::Greater {
+        assert!(ac == Ordering::Less, "order: strict transitivity (a<b, b<=c => a<c)");
+    }
+}
+
+macro_rules! order_triple {
+    ($name:ident, $a:expr, $b:expr, $c:expr) => {
+        #[kani::proof]
+        #[kani::unwind(4)]
+        fn $name() {
+            order_laws(shaped($a), shaped($b), shaped($c));
+        }
+    };
+}
+
+// numeric triples (the interesting ones): all 8 Int/Float combinations, with full-range ints
+order_triple!(c20_o1_q_iii, 'I', 'I', 'I');
+order_triple!(c20_o1_q_iif, 'I', 'I', 'F');
+order_triple!(c20_o1_q_ifi, 'I', 'F', 'I');
+order_triple!(c20_o1_q_fii, 'F', 'I', 'I');
+order_triple!(c20_o1_q_iff, 'I', 'F', 'F');
+order_triple!(c20_o1_q_fif, 'F', 'I', 'F');
+order_triple!(c20_o1_q_ffi, 'F', 'F', 'I');
+order_triple!(c20_o1_q_fff, 'F', 'F', 'F');
+// NaN sorts above every number and equal to itself
+order_triple!(c20_o1_q_aaa, 'A', 'A', 'A');
+order_triple!(c20_o1_q_ian, 'I', 'A', 'N');
+order_triple!(c20_o1_q_nia, 'N', 'I', 'A');
+order_triple!(c20_o1_q_ain, 'A', 'I', 'N');
+// cross-kind
+order_triple!(c20_o1_q_bfu, 'B', 'A', 'U');
+order_triple!(c20_o1_q_dib, 'D', 'I', 'B');
+order_triple!(c20_o1_q_ubd, 'U', 'B', 'D');
+order_triple!(c20_o1_q_bbb, 'B', 'B', 'B');
+order_triple!(c20_o1_q_ddd, 'D', 'D', 'D');
+order_triple!(c20_o1_q_uuu, 'U', 'U', 'U');
+order_triple!(c20_o1_q_idu, 'I', 'D', 'U');
+order_triple!(c20_o1_q_fdb, 'A', 'D', 'B');
+order_triple!(c20_o1_q_bid, 'B', 'I', 'D');
+order_triple!(c20_o1_q_dub, 'D', 'U', 'B');
+order_triple!(c20_o1_q_ubi, 'U', 'B', 'I');
+
+/// Rank order between kinds (Cypher orderability: ... String < Bool < number < DateTime ... < Null last) and
+/// numeric agreement with the exact mathematical order for Int/Int.
+#[kani::proof]
+#[kani::unwind(4)]
+fn c20_o1_q_kind_ranks() {
+    let b = shaped('B');
+    let i = shaped('I');
+    let f = shaped('A');
+    let d = shaped('D');
+    let u = shaped('U');
+    let r1 = order_compare(&b, &i);
+    let r2 = order_compare(&b, &f);
+    let r3 = order_compare(&i, &d);
+    let r4 = order_compare(&f, &d);
+    let r5 = order_compare(&d, &u);
+    let r6 = order_compare(&i, &u);
+    let r7 = order_compare(&u, &b);
+    std::mem::forget((b, i, f, d, u));
+    kani::cover!(true, "witness: ranks reached");
+    assert!(r1 == Ordering::Less && r2 == Ordering::Less, "rank: Bool < number");
+    assert!(r3 == Ordering::Less && r4 == Ordering::Less, "rank: number < DateTime");
+    assert!(r5 == Ordering::Less && r6 == Ordering::Less, "rank: Null last");
+    assert!(r7 == Ordering::Greater, "rank: Null last (reverse)");
+}
+
+#[kani::proof]
+#[kani::unwind(4)]
+fn c20_o1_q_int_int_exact() {
+    let x: i64 = kani::any();
+    let y: i64 = kani::any();
+    let r = order_compare(&Value::Int(x), &Value::Int(y));
+    kani::cover!(x > (1i64 << 53) && y == x - 1, "witness: adjacent large ints reachable");
+    assert!(r == x.cmp(&y), "order: Int/Int is the exact integer order");
+}
+
+/// Int vs Float must follow the exact mathematical order (no rounding of the integer).
+#[kani::proof]
+#[kani::unwind(4)]
+fn c20_o1_q_int_float_exact_on_integral_floats() {
+    let x: i64 = kani::any();
+    let y: i64 = kani::any();
+    // y as f64 is exact iff |y| <= 2^53 (or a multiple of a suitable power of two); use small y
+    kani::assume(y.unsigned_abs() <= TWO53);
+    let f = y as f64;
+    let r = order_compare(&Value::Int(x), &Value::Float(f));
+    kani::cover!(x.unsigned_abs() > TWO53, "witness: large int vs exactly-representable float reachable");
+    assert!(r == x.cmp(&y), "order: Int vs integral Float is the exact order");
+}
+
+// =============================================================================================
+// C23-O1: cypher_equals is an equivalence on non-null non-NaN scalars; null in => null out
+// =============================================================================================
+fn is_true(v: &Value) -> bool {
+    matches!(v, Value::Bool(true))
+}
+fn is_bool(v: &Value) -> bool {
+    matches!(v, Value::Bool(_))
+}
+
+fn eq_laws(a: Value, b: Value, c: Value) {
+    let aa = cypher_equals(&a, &a);
+    let ab = cypher_equals(&a, &b);
+    let ba = cypher_equals(&b, &a);
+    let bc = cypher_equals(&b, &c);
+    let ac = cypher_equals(&a, &c);
+    let (raa, rab, rba, rbc, rac) = (is_true(&aa), is_true(&ab), is_true(&ba), is_true(&bc), is_true(&ac));
+    let all_bool = is_bool(&aa) && is_bool(&ab) && is_bool(&ba) && is_bool(&bc) && is_bool(&ac);
+    std::mem::forget((a, b, c, aa, ab, ba, bc, ac));
+    kani::cover!(true, "witness: laws reached");
+    assert!(all_bool, "equality: non-null scalars compare to a Bool");
+    assert!(raa, "equality: reflexive on non-NaN");
+    assert!(rab == rba, "equality: symmetric");
+    if rab && rbc {
+        assert!(rac, "equality: transitive");
+    }
+}
+
+macro_rules! eq_triple {
+    ($name:ident, $a:expr, $b:expr, $c:expr) => {
+        #[kani::proof]
+        #[kani::unwind(4)]
+        fn $name() {
+            eq_laws(shaped($a), shaped($b), shaped($c));
+        }
+    };
+}
+eq_triple!(c23_o1_q_iii, 'I', 'I', 'I');
+eq_triple!(c23_o1_q_iif, 'I', 'I', 'F');
+eq_triple!(c23_o1_q_ifi, 'I', 'F', 'I');
+eq_triple!(c23_o1_q_fii, 'F', 'I', 'I');
+eq_triple!(c23_o1_q_iff, 'I', 'F', 'F');
+eq_triple!(c23_o1_q_fif, 'F', 'I', 'F');
+eq_triple!(c23_o1_q_ffi, 'F', 'F', 'I');
+eq_triple!(c23_o1_q_fff, 'F', 'F', 'F');
+eq_triple!(c23_o1_q_bbb, 'B', 'B', 'B');
+eq_triple!(c23_o1_q_bif, 'B', 'I', 'F');
+eq_triple!(c23_o1_q_dib, 'D', 'I', 'B');
+eq_triple!(c23_o1_q_ddd, 'D', 'D', 'D');
+
+/// Int = Float must be exact: equal iff the float is integral and denotes the same integer.
+#[kani::proof]
+#[kani::unwind(4)]
+fn c23_o1_q_int_float_exact() {
+    let x: i64 = kani::any();
+    let y: i64 = kani::any();
+    kani::assume(y.unsigned_abs() <= TWO53);
+    let r = cypher_equals(&Value::Int(x), &Value::Float(y as f64));
+    let rt = is_true(&r);
+    std::mem::forget(r);
+    kani::cover!(x.unsigned_abs() > TWO53, "witness: large int reachable");
+    assert!(rt == (x == y), "equality: Int = integral Float iff same integer");
+}
+
+#[kani::proof]
+#[kani::unwind(4)]
+fn c23_o1_q_nan_never_equal() {
+    let n = shaped('N');
+    let a = shaped('A');
+    let i = shaped('I');
+    let r1 = cypher_equals(&n, &a);
+    let r2 = cypher_equals(&a, &n);
+    let r3 = cypher_equals(&n, &i);
+    let r4 = cypher_equals(&i, &n);
+    let ok = matches!(
+        (&r1, &r2, &r3, &r4),
+        (Value::Bool(false), Value::Bool(false), Value::Bool(false), Value::Bool(false))
+    );
+    std::mem::forget((n, a, i, r1, r2, r3, r4));
+    kani::cover!(true, "witness: reached");
+    assert!(ok, "equality: NaN equals nothing");
+}
+
+macro_rules! eq_null {
+    ($name:ident, $k:expr) => {
+        #[kani::proof]
+        #[kani::unwind(4)]
+        fn $name() {
+            let v = shaped($k);
+            let r1 = cypher_equals(&v, &Value::Null);
+            let r2 = cypher_equals(&Value::Null, &v);
+            let ok = matches!((&r1, &r2), (Value::Null, Value::Null));
+            std::mem::forget((v, r1, r2));
+            kani::cover!(true, "witness: reached");
+            assert!(ok, "equality: null in, null out");
+        }
+    };
+}
+eq_null!(c23_o1_q_null_i, 'I');
+eq_null!(c23_o1_q_null_a, 'A');
+eq_null!(c23_o1_q_null_b, 'B');
+eq_null!(c23_o1_q_null_u, 'U');
+
+// =============================================================================================
+// C23-O2: <, <=, >, >= agree with each other, with `=` and with the ORDER BY order on numbers
+// =============================================================================================
+fn cmp_laws(a: Value, b: Value) {
+    let lt = compare_values(&a, &b, |o| o == Ordering::Less);
+    let le = compare_values(&a, &b, |o| o != Ordering::Greater);
+    let gt = compare_values(&a, &b, |o| o == Ordering::Greater);
+    let ge = compare_values(&a, &b, |o| o != Ordering::Less);
+    let eq = cypher_equals(&a, &b);
+    let ord = order_compare(&a, &b);
+    let all_bool = is_bool(&lt) && is_bool(&le) && is_bool(&gt) && is_bool(&ge) && is_bool(&eq);
+    let (lt, le, gt, ge, eq) = (is_true(&lt), is_true(&le), is_true(&gt), is_true(&ge), is_true(&eq));
+    std::mem::forget((a, b));
+    kani::cover!(true, "witness: laws reached");
+    assert!(all_bool, "compare: numbers compare to Bools");
+    assert!((lt as u8) + (eq as u8) + (gt as u8) == 1, "compare: exactly one of <, =, > holds");
+    assert!(le == (lt || eq), "compare: <= iff < or =");
+    assert!(ge == (gt || eq), "compare: >= iff > or =");
+    assert!(lt == (ord == Ordering::Less), "compare: < agrees with the ORDER BY order");
+    assert!(gt == (ord == Ordering::Greater), "compare: > agrees with the ORDER BY order");
+}
+macro_rules! cmp_pair {
+    ($name:ident, $a:expr, $b:expr) => {
+        #[kani::proof]
+        #[kani::unwind(4)]
+        fn $name() {
+            cmp_laws(shaped($a), shaped($b));
+        }
+    };
+}
+cmp_pair!(c23_o2_q_ii, 'I', 'I');
+cmp_pair!(c23_o2_q_if, 'I', 'F');
+cmp_pair!(c23_o2_q_fi, 'F', 'I');
+cmp_pair!(c23_o2_q_ff, 'F', 'F');
+
+macro_rules! cmp_nan {
+    ($name:ident, $k:expr) => {
+        #[kani::proof]
+        #[kani::unwind(4)]
+        fn $name() {
+            let n = shaped('N');
+            let x = shaped($k);
+            let r1 = compare_values(&n, &x, |o| o == Ordering::Less);
+            let r2 = compare_values(&x, &n, |o| o != Ordering::Greater);
+            let r3 = compare_values(&n, &x, |o| o == Ordering::Greater);
+            let r4 = compare_values(&x, &n, |o| o != Ordering::Less);
+            let ok = matches!(
+                (&r1, &r2, &r3, &r4),
+                (Value::Bool(false), Value::Bool(false), Value::Bool(false), Value::Bool(false))
+            );
+            std::mem::forget((n, x, r1, r2, r3, r4));
+            kani::cover!(true, "witness: reached");
+            assert!(ok, "compare: NaN makes every range comparison false");
+        }
+    };
+}
+cmp_nan!(c23_o2_q_nan_i, 'I');
+cmp_nan!(c23_o2_q_nan_a, 'A');
+
+macro_rules! cmp_null {
+    ($name:ident, $k:expr) => {
+        #[kani::proof]
+        #[kani::unwind(4)]
+        fn $name() {
+            let v = shaped($k);
+            let r1 = compare_values(&v, &Value::Null, |o| o == Ordering::Less);
+            let r2 = compare_values(&Value::Null, &v, |o| o != Ordering::Less);
+            let ok = matches!((&r1, &r2), (Value::Null, Value::Null));
+            std::mem::forget((v, r1, r2));
+            kani::cover!(true, "witness: reached");
+            assert!(ok, "compare: null in, null out");
+        }
+    };
+}
+cmp_null!(c23_o2_q_null_i, 'I');
+cmp_null!(c23_o2_q_null_a, 'A');
+cmp_null!(c23_o2_q_null_b, 'B');
+
+#[kani::proof]
+#[kani::unwind(4)]
+fn c23_o2_q_bool_bool() {
+    let x: bool = kani::any();
+    let y: bool = kani::any();
+    let lt = compare_values(&Value::Bool(x), &Value::Bool(y), |o| o == Ordering::Less);
+    let ge = compare_values(&Value::Bool(x), &Value::Bool(y), |o| o != Ordering::Less);
+    let ok = matches!((&lt, &ge), (Value::Bool(l), Value::Bool(g)) if *l == (!x & y) && *g == !*l);
+    std::mem::forget((lt, ge));
+    kani::cover!(true, "witness: reached");
+    assert!(ok, "compare: false < true, >= is the complement");
+}
+
+// =============================================================================================
+// C23-O3: one overflow rule for + - * : Int(exact) when the exact result fits i64, else Float
+// =============================================================================================
+fn arith_int_rule(r: Value, exact: i128, x: i64, y: i64) {
+    let fits = exact >= i64::MIN as i128 && exact <= i64::MAX as i128;
+    let ok = match &r {
+        Value::Int(v) => fits && (*v as i128) == exact,
+        Value::Float(f) => !fits && f.is_finite(),
+        _ => false,
+    };
+    std::mem::forget(r);
+    kani::cover!(fits, "witness: in-range result reachable");
+    kani::cover!(!fits, "witness: overflowing result reachable");
+    let _ = (x, y);
+    assert!(ok, "arithmetic: Int(exact) if the exact result fits i64, else a finite Float");
+}
+
+#[kani::proof]
+#[kani::unwind(4)]
+fn c23_o3_q_add_int_int() {
+    let x: i64 = kani::any();
+    let y: i64 = kani::any();
+    let r = add_values(&Value::Int(x), &Value::Int(y));
+    arith_int_rule(r, x as i128 + y as i128, x, y);
+}
+
+#[kani::proof]
+#[kani::unwind(4)]
+fn c23_o3_q_sub_int_int() {
+    let x: i64 = kani::any();
+    let y: i64 = kani::any();
+    let r = subtract_values(&Value::Int(x), &Value::Int(y));
+    arith_int_rule(r, x as i128 - y as i128, x, y);
+}
+
+#[kani::proof]
+#[kani::unwind(4)]
+fn c23_o3_t_mul_int_int() {
+    let x: i64 = kani::any();
+    let y: i64 = kani::any();
+    let r = multiply_values(&Value::Int(x), &Value::Int(y));
+    arith_int_rule(r, (x as i128) * (y as i128), x, y);
+}
+
+/// quick-tier multiplication: one factor restricted to 16 bits (full 64x64 is the thorough harness above)
+#[kani::proof]
+#[kani::unwind(4)]
+fn c23_o3_q_mul_int_small() {
+    let x: i64 = kani::any();
+    let y: i16 = kani::any();
+    let r = multiply_values(&Value::Int(x), &Value::Int(y as i64));
+    arith_int_rule(r, (x as i128) * (y as i128), x, y as i64);
+}
+
+// Division and remainder: full-width symbolic dividers (64-bit for `/`, 128-bit for the i128 `%` in numeric_mod) do not
+// finish in CBMC, so the divisor is enumerated over the special values {0, -1, 1} with a full-range dividend, and both
+// operands are symbolic on narrow ranges (8 bit quick, 16 bit thorough, full width attempted).
+fn div_rule(x: i64, y: i64) {
+    let r = divide_values(&Value::Int(x), &Value::Int(y));
+    let ok = match &r {
+        Value::Null => y == 0,
+        Value::Int(v) => y != 0 && !(x == i64::MIN && y == -1) && *v == x.wrapping_div(y),
+        Value::Float(f) => x == i64::MIN && y == -1 && *f == 9223372036854775808.0,
+        _ => false,
+    };
+    std::mem::forget(r);
+    kani::cover!(true, "witness: reached");
+    assert!(ok, "arithmetic: x/0 = null, MIN/-1 = 2^63 as Float, else truncated quotient");
+}
+fn mod_rule(x: i64, y: i64) {
+    let r = numeric_mod(&Value::Int(x), &Value::Int(y));
+    let ok = match &r {
+        Value::Null => y == 0,
+        Value::Int(v) => y != 0 && *v == x.wrapping_rem(y),
+        _ => false,
+    };
+    std::mem::forget(r);
+    kani::cover!(true, "witness: reached");
+    assert!(ok, "arithmetic: x%0 = null, else remainder with the dividend's sign, never panics");
+}
+macro_rules! divmod_const {
+    ($name:ident, $f:ident, $y:expr) => {
+        #[kani::proof]
+        #[kani::unwind(4)]
+        fn $name() {
+            let x: i64 = kani::any();
+            kani::cover!(x == i64::MIN, "witness: MIN dividend reachable");
+            $f(x, $y);
+        }
+    };
+}
+divmod_const!(c23_o3_q_div_by_zero, div_rule, 0);
+divmod_const!(c23_o3_q_div_by_minus_one, div_rule, -1);
+divmod_const!(c23_o3_q_div_by_one, div_rule, 1);
+divmod_const!(c23_o3_q_mod_by_zero, mod_rule, 0);
+divmod_const!(c23_o3_q_mod_by_minus_one, mod_rule, -1);
+divmod_const!(c23_o3_q_mod_by_one, mod_rule, 1);
+macro_rules! divmod_narrow {
+    ($name:ident, $f:ident, $t:ty) => {
+        #[kani::proof]
+        #[kani::unwind(4)]
+        fn $name() {
+            let x: $t = kani::any();
+            let y: $t = kani::any();
+            $f(x as i64, y as i64);
+        }
+    };
+}
+divmod_narrow!(c23_o3_q_div_i8, div_rule, i8);
+divmod_narrow!(c23_o3_q_mod_i8, mod_rule, i8);
+divmod_narrow!(c23_o3_t_div_i16, div_rule, i16);
+divmod_narrow!(c23_o3_t_mod_i16, mod_rule, i16);
+divmod_narrow!(c23_o3_a_div_i64, div_rule, i64);
+divmod_narrow!(c23_o3_a_mod_i64, mod_rule, i64);
+
+macro_rules! arith_null {
+    ($name:ident, $k:expr) => {
+        #[kani::proof]
+        #[kani::unwind(12)]
+        fn $name() {
+            let v = shaped($k);
+            let n = Value::Null;
+            let rs = [
+                add_values(&v, &n),
+                add_values(&n, &v),
+                subtract_values(&v, &n),
+                subtract_values(&n, &v),
+                multiply_values(&v, &n),
+                multiply_values(&n, &v),
+                divide_values(&v, &n),
+                divide_values(&n, &v),
+                numeric_mod(&v, &n),
+                numeric_mod(&n, &v),
+            ];
+            let mut ok = true;
+            let mut i = 0;
+            while i < 10 {
+                ok &= matches!(rs[i], Value::Null);
+                i += 1;
+            }
+            std::mem::forget((v, rs));
+            kani::cover!(true, "witness: reached");
+            assert!(ok, "arithmetic: null in, null out");
+        }
+    };
+}
+arith_null!(c23_o3_q_null_i, 'I');
+arith_null!(c23_o3_q_null_a, 'A');
+
+#[kani::proof]
+#[kani::unwind(4)]
+fn c23_o3_q_mixed_is_float() {
+    let x: i64 = kani::any();
+    let f: f64 = kani::any();
+    let r1 = add_values(&Value::Int(x), &Value::Float(f));
+    let r2 = multiply_values(&Value::Float(f), &Value::Int(x));
+    let r3 = numeric_div(&Value::Int(x), &Value::Float(f));
+    let ok = matches!((&r1, &r2, &r3), (Value::Float(_), Value::Float(_), Value::Float(_)));
+    std::mem::forget((r1, r2, r3));
+    kani::cover!(true, "witness: reached");
+    assert!(ok, "arithmetic: Int op Float is a Float");
+}
+
+// =============================================================================================
+// C15-O1: the index lookup key agrees with Cypher equality (lookup = prefix match on enc(value))
+// =============================================================================================
+fn key_agreement(a: Value, pa: PropertyValue, b: Value, pb: PropertyValue) {
+    let eq = is_true(&cypher_equals(&a, &b));
+    let ka = encode_ordered_value(&pa);
+    let kb = encode_ordered_value(&pb);
+    let same = ka == kb;
+    std::mem::forget((a, b, pa, pb, ka, kb));
+    kani::cover!(eq, "witness: equal values reachable");
+    kani::cover!(!eq, "witness: unequal values reachable");
+    if same {
+        assert!(eq, "index: equal keys only for equal values (no false hits)");
+    }
+    if eq {
+        assert!(same, "index: equal values have equal keys (no missed hits)");
+    }
+}
+
+#[kani::proof]
+#[kani::unwind(12)]
+fn c15_o1_q_int_int() {
+    let x: i64 = kani::any();
+    let y: i64 = kani::any();
+    key_agreement(Value::Int(x), PropertyValue::Int(x), Value::Int(y), PropertyValue::Int(y));
+}
+
+#[kani::proof]
+#[kani::unwind(12)]
+fn c15_o1_q_float_float() {
+    let x: f64 = kani::any();
+    let y: f64 = kani::any();
+    kani::assume(!x.is_nan() && !y.is_nan());
+    key_agreement(Value::Float(x), PropertyValue::Float(x), Value::Float(y), PropertyValue::Float(y));
+}
+
+#[kani::proof]
+#[kani::unwind(12)]
+fn c15_o1_q_bool_bool() {
+    let x: bool = kani::any();
+    let y: bool = kani::any();
+    key_agreement(Value::Bool(x), PropertyValue::Bool(x), Value::Bool(y), PropertyValue::Bool(y));
+}
+
+/// Int vs Float: `1 = 1.0` is true in Cypher, so a lookup by Int 1 must find a stored Float 1.0.
+#[kani::proof]
+#[kani::unwind(12)]
+fn c15_o1_q_int_float() {
+    let x: i64 = kani::any();
+    let y: f64 = kani::any();
+    kani::assume(!y.is_nan());
+    key_agreement(Value::Int(x), PropertyValue::Int(x), Value::Float(y), PropertyValue::Float(y));
+}
+
+/// complement of the known Int/Float key finding: unequal Int/Float never share a key.
+#[kani::proof]
+#[kani::unwind(12)]
+fn c15_o1_q_int_float_no_false_hits() {
+    let x: i64 = kani::any();
+    let y: f64 = kani::any();
+    let ka = encode_ordered_value(&PropertyValue::Int(x));
+    let kb = encode_ordered_value(&PropertyValue::Float(y));
+    let same = ka == kb;
+    let pre = ka.starts_with(&kb) || kb.starts_with(&ka);
+    std::mem::forget((ka, kb));
+    kani::cover!(true, "witness: reached");
+    assert!(!same && !pre, "index: an Int key is never equal to / a prefix of a Float key");
+}
